@@ -6,6 +6,6 @@ export GOFLAGS=-mod=mod GOPROXY=off GOSUMDB=off GOTOOLCHAIN=local
 mkdir -p build/tmp build/replay evidence
 python3 gen/extract.py || exit 1
 python3 vlib/mkproject.py
-( cd coq && coq_makefile -f _CoqProject -o Makefile >/dev/null 2>&1 && timeout 3000 make -j16 -k ) || { echo "coq build failed"; exit 1; }
+( cd coq && coq_makefile -f _CoqProject -o Makefile >/dev/null 2>&1 && timeout 3000 make -j16 -k >../build/setup_coq.log 2>&1 ) || { echo "coq build: some targets failed (each check rebuilds and reports its own theorems):"; grep -B2 -A6 "^Error" build/setup_coq.log | head -60; }
 python3 vlib/warm.py || true
 echo "setup done"
